@@ -13,6 +13,7 @@ import Ztr.Model.Bracket
 import Ztr.Model.Sched
 import Ztr.Model.Xml
 import Ztr.Model.Discovery
+import Ztr.Model.Streams
 /-!
 Line protocol between the Python harness and the executable model: one JSON object per line in,
 one JSON object per line out.  `op` selects the model component.  Unknown or malformed requests are
@@ -507,6 +508,61 @@ def opKeptLines (j : Json) : Except String Json := do
   return Json.mkObj [("kept", Json.arr ((Ztr.Channel.keptLines bs).map jNats).toArray),
     ("dots", Json.arr (lines.map (fun l => Json.bool (Ztr.Channel.isDotsLine l))).toArray)]
 
+/-- `streams`: the capture state machine.  `ops` = [["setUp"] | ["restore"] | ["skip"] | ["write", "out"|"err", tok] |
+["close", w] | ["install", w, ["orig"] | ["buf", gen] | ["own", n]]]; answers the observable state after every
+operation: what sys.stdout / sys.stderr are ("orig" | "bufOut" | "bufErr" | "stale" | "own"), the flag, the held
+capture streams ([closed, content] or null), what a restore returned, tokens shown so far, raised. -/
+def opStreams (j : Json) : Except String Json := do
+  let buffer ← J.bool! j "buffer"
+  let which (x : Json) : Except String Ztr.Streams.Which := do
+    match ← x.getStr? with
+    | "out" => return .out
+    | "err" => return .err
+    | w => throw s!"bad stream {w}"
+  let ops ← (← J.arr! j "ops").toList.mapM (fun (x : Json) => do
+    let a ← x.getArr?
+    let tag ← a[0]!.getStr?
+    match tag with
+    | "setUp" => return Ztr.Streams.Op.setUp
+    | "restore" => return .restore
+    | "skip" => return .skipReport
+    | "write" => return .write (← which a[1]!) (← a[2]!.getNat?)
+    | "close" => return .close (← which a[1]!)
+    | "install" => do
+      let r ← a[2]!.getArr?
+      let rt ← r[0]!.getStr?
+      let ref ← match rt with
+        | "orig" => pure Ztr.Streams.Ref.orig
+        | "buf" => do pure (Ztr.Streams.Ref.buf (← r[1]!.getNat?))
+        | "own" => do pure (Ztr.Streams.Ref.own (← r[1]!.getNat?))
+        | _ => throw s!"bad ref {rt}"
+      return .install (← which a[1]!) ref
+    | _ => throw s!"bad op {tag}")
+  let kind (s : Ztr.Streams.St) (r : Ztr.Streams.Ref) : String :=
+    match r with
+    | .orig => "orig"
+    | .own _ => "own"
+    | .buf _ => if Ztr.Streams.isHeld r s.bufOut then "bufOut" else if Ztr.Streams.isHeld r s.bufErr then "bufErr" else "stale"
+  let jbuf (b : Option Ztr.Streams.Buf) : Json :=
+    match b with
+    | none => Json.null
+    | some b => Json.arr #[Json.bool b.closed, Json.arr (b.content.map (fun (n : Nat) => (n : Json))).toArray]
+  let jn (l : List Nat) : Json := Json.arr (l.map (fun (n : Nat) => (n : Json))).toArray
+  let rec go (s : Ztr.Streams.St) (ops : List Ztr.Streams.Op) (acc : Array Json) : Array Json :=
+    match ops with
+    | [] => acc
+    | op :: rest =>
+      let ret : Json := match op with
+        | .restore => match (Ztr.Streams.restore buffer s).2 with
+          | none => Json.null
+          | some (a, b) => Json.arr #[jn a, jn b]
+        | _ => Json.null
+      let s' := Ztr.Streams.step buffer s op
+      go s' rest (acc.push (Json.mkObj [("out", Json.str (kind s' s'.out)), ("err", Json.str (kind s' s'.err)),
+        ("flag", Json.bool s'.flag), ("bufOut", jbuf s'.bufOut), ("bufErr", jbuf s'.bufErr), ("ret", ret),
+        ("shown", jn s'.shown), ("raised", Json.bool s'.raised)]))
+  return Json.mkObj [("states", Json.arr (go {} ops #[]))]
+
 def dispatch (j : Json) : Except String Json := do
   let op ← J.str! j "op"
   match op with
@@ -529,6 +585,7 @@ def dispatch (j : Json) : Except String Json := do
   | "channel_parse" => opChannelParse j
   | "kept_lines" => opKeptLines j
   | "child_report" => opChildReport j
+  | "streams" => opStreams j
   | _ => throw s!"unknown op {op}"
 
 partial def loop (h : IO.FS.Stream) (out : IO.FS.Stream) : IO Unit := do
